@@ -223,4 +223,12 @@ var checks = map[string]*check{
 		Assumptions: []string{"no schedule control over real processes; a leak that needs a particular interleaving may escape", "goroutines are sampled once, 7 s after Kill (after the 5 s broker timers)"},
 		Parts:       []part{{Name: "leaks", Kind: "enum", Bin: "e3.test", Test: "TestC18"}},
 	},
+	"C17": {
+		Title: "Plugin launch environment and stdin are determined by the client config",
+		Level: "exploration",
+		Rule: "host half: client configurations {3 version layouts} x AutoMTLS x multiplexing x SkipHostEnv x socket group {none, own gid} x port range {default, custom} x every subset of size <= 2 of 8 ambient host-environment items (PLUGIN_CLIENT_CERT, PLUGIN_MULTIPLEX_GRPC, PLUGIN_PROTOCOL_VERSIONS, PLUGIN_MIN/MAX_PORT, PLUGIN_UNIX_SOCKET_DIR, PLUGIN_UNIX_SOCKET_GROUP, the cookie key with a stale value, an unrelated marker): the environment and stdin a RunnerFunc is handed, judged on the effective environment (last assignment wins); " +
+			"plugin half: a real plugin.Serve child launched (command) from a host whose own environment carries each ambient item, x protocol x AutoMTLS x multiplexing, must work end to end; each cell in a fresh host process; non-trivial = a non-empty ambient set",
+		Assumptions: []string{"ambient socket directory is an existing directory (what a host that is itself a plugin would carry)", "presence of socket dir/group is required when configured; their absence when not configured is not demanded (the statement does not)"},
+		Parts:       []part{{Name: "environment", Kind: "enum", Bin: "e3.test", Test: "TestC17"}},
+	},
 }
